@@ -65,6 +65,8 @@ def make_specs():
         'a.zz.y',                                                    # 13 failing path
         Invoke(_collect).star(kwargs='opts').specs(c='n').constants(d=1),   # 14 a dict of the target star-starred, then more kwargs
         Coalesce('rec.zz', default='none'),                          # 15 a dict-subclass instance: its handler is looked up by fuzzy type
+        ('n', _raise_a),                                             # 16 a non-mutating callable raising an application error ...
+        ('n', _raise_b),                                             # 17 ... and one raising ANOTHER class with the same __name__
     ]
 
 
@@ -76,7 +78,24 @@ class Rec(dict):
     __slots__ = ()
 
 
-NTHUNK = 16
+def _mk_err(tag):
+    class ConnectionError(Exception):      # application classes sharing a __name__ (and shadowing a builtin's)
+        origin = tag
+    return ConnectionError
+
+
+ERR_A, ERR_B = _mk_err('a'), _mk_err('b')
+
+
+def _raise_a(t):
+    raise ERR_A(t)
+
+
+def _raise_b(t):
+    raise ERR_B(t)
+
+
+NTHUNK = 18
 G = [None]
 
 
@@ -93,7 +112,7 @@ def outcome(thunk, spec, t, use_glommer=False):
         else:
             v = glom(t, spec, glom_debug=True)
     except GlomError as e:
-        return ('err', type(e).__name__, getattr(e, 'part_idx', None))
+        return ('err', type(e).__name__, getattr(e, 'part_idx', None), isinstance(e, ERR_A), isinstance(e, ERR_B))
     return ('ok', v)
 
 
